@@ -297,14 +297,27 @@ def nontrivial(c):
 
 
 # ----------------------------------------------------------------------------- implementation side
-def _observe(D, sig):
+ACCESSORS = ("years", "months", "weeks", "_days", "remaining_days", "seconds", "hours", "minutes", "remaining_seconds", "microseconds", "invert")
+TOTALS = ("total_seconds", "total_minutes", "total_hours", "total_days", "total_weeks")
+INS = ("in_weeks", "in_days", "in_hours", "in_minutes", "in_seconds")
+
+
+def _observe(D, sig, order=0):
+    """order 0 reads the accessors in declaration order, 1 in reverse order, 2 smallest-unit-first with the in_* / total_* methods before the
+    properties: several accessors are computed lazily and cached on the instance, and the value of one must not depend on which others were read before it."""
     from datetime import timedelta
+    vals = {}
+    names = list(ACCESSORS) + list(TOTALS) + list(INS)
+    seq = names if order == 0 else names[::-1] if order == 1 else list(INS[::-1]) + list(TOTALS) + list(ACCESSORS[::-1])
+    for n in seq:
+        v = getattr(D, n)
+        vals[n] = v() if callable(v) else v
     r = [timedelta.days.__get__(D), timedelta.seconds.__get__(D), timedelta.microseconds.__get__(D)]
     r += fcode(D._total)
-    r += [D.years, D.months, D.weeks, D._days, D.remaining_days, D.seconds, D.hours, D.minutes, D.remaining_seconds, D.microseconds, int(D.invert)]
-    for f in (D.total_seconds, D.total_minutes, D.total_hours, D.total_days, D.total_weeks):
-        r += fcode(f())
-    r += [D.in_weeks(), D.in_days(), D.in_hours(), D.in_minutes(), D.in_seconds()]
+    r += [int(vals[n]) for n in ACCESSORS]
+    for n in TOTALS:
+        r += fcode(vals[n])
+    r += [vals[n] for n in INS]
     if sig:
         s = D._signature
         r += [s[k] for k in ("years", "months", "weeks", "days", "hours", "minutes", "seconds", "microseconds")]
@@ -329,10 +342,16 @@ def impl_run(cases):
                 y, mo, w, d, h, mi, s, ms, us = a
                 kw = dict(years=y, months=mo, weeks=w, days=d, hours=h, minutes=mi, seconds=s, milliseconds=ms, microseconds=us)
                 if fn == "abs":
-                    out.append([0] + _observe(AbsoluteDuration(**kw), False))
+                    o = _observe(AbsoluteDuration(**kw), False)
+                    alt = [_observe(AbsoluteDuration(**kw), False, k) for k in (1, 2)]
+                    out.append([0] + o if all(x == o for x in alt) else [8, "accessor-order"] + o + [x for x in alt if x != o][0])
                 else:
                     D = Duration(**kw)
                     o = _observe(D, True)
+                    alt = [_observe(Duration(**kw), True, k) for k in (1, 2)]
+                    if any(x != o for x in alt):
+                        out.append([8, "accessor-order"] + o + [x for x in alt if x != o][0])
+                        continue
                     try:
                         D2 = Duration(years=D.years, months=D.months, weeks=D.weeks, days=D.remaining_days, hours=D.hours, minutes=D.minutes,
                                       seconds=D.remaining_seconds, microseconds=D.microseconds)
@@ -530,6 +549,11 @@ def oracle(c, backend, r):
                 td = timedelta(days=d, weeks=w, hours=h, minutes=mi, seconds=s, milliseconds=ms, microseconds=us)
         except OverflowError:
             return None if r[:2] == [1, "OverflowError"] else f"native timedelta overflows, Duration gave {r[:3]}"
+        if r[0] == 8:
+            n = (len(r) - 2) // 2
+            k = next(i for i in range(n) if r[2 + i] != r[2 + n + i])
+            return (f"the accessors of two Durations built from the same arguments differ when they are read in another order (lazily cached "
+                    f"components): observation slot {k}: {r[2 + k]} reading biggest-unit-first, {r[2 + n + k]} otherwise")
         if r[0] != 0:
             if fn == "dur" and r[:2] == [1, "OverflowError"] and abs((365 * y + 30 * mo) * 86400) >= 2 ** 1023:
                 return None        # float - int with an int beyond the float range
